@@ -39,8 +39,11 @@ func pillarObs(l *calendar.Lunar) obj {
 		ec := l.GetEightChar()
 		ec.SetSect(1)
 		o["ec1"] = []string{ec.GetYear(), ec.GetMonth(), ec.GetDay(), ec.GetTime()}
+		s1 := ec.String()
 		ec.SetSect(2)
 		o["ec2"] = []string{ec.GetYear(), ec.GetMonth(), ec.GetDay(), ec.GetTime()}
+		// the chart as it prints itself under each convention (the four pillars separated by blanks)
+		o["ecs"] = []string{s1, ec.String()}
 		o["tm"] = []int{l.GetTime().GetGanIndex(), l.GetTime().GetZhiIndex()}
 		// extension (outside C05): the bounds of the two-hour slot as the hour object prints them
 		o["hm"] = [][]int{codepoints(l.GetTime().GetMinHm()), codepoints(l.GetTime().GetMaxHm())}
